@@ -4,6 +4,7 @@ import (
 	"context"
 	"encoding/json"
 	"fmt"
+	"math"
 	"slices"
 	"strings"
 
@@ -307,7 +308,7 @@ func (r *PaginatedResourceRepository[ResourceType, OptionsType]) Paginate(
 
 		_, field := r.resourceHandler.Schema().GetFieldByNameOrAlias(v.Column)
 		if field == nil {
-			return nil, fmt.Errorf("invalid property '%s' for pagination", v.Column)
+			return nil, NewErrInvalidQuery("invalid property '%s' for pagination", v.Column)
 		}
 
 		if !field.IsPaginated {
@@ -337,14 +338,30 @@ func (r *PaginatedResourceRepository[ResourceType, OptionsType]) Paginate(
 		paginator     Paginator[ResourceType]
 		resourceQuery ResourceQuery[OptionsType]
 	)
+	// a query decoded from a client cursor is validated like an initial one
 	switch v := any(paginationQuery).(type) {
 	case OffsetPaginatedQuery[OptionsType]:
+		if _, field := r.resourceHandler.Schema().GetFieldByNameOrAlias(v.Column); field == nil {
+			return nil, NewErrInvalidQuery("invalid property '%s' for pagination", v.Column)
+		}
+		if v.PageSize > math.MaxInt32 {
+			return nil, NewErrInvalidQuery("invalid page size %d", v.PageSize)
+		}
 		paginator = newOffsetPaginator[ResourceType, OptionsType](v)
 		resourceQuery = v.Options
 	case ColumnPaginatedQuery[OptionsType]:
 		fieldName, field := r.resourceHandler.Schema().GetFieldByNameOrAlias(v.Column)
 		if field == nil {
-			return nil, fmt.Errorf("invalid property '%s' for pagination", v.Column)
+			return nil, NewErrInvalidQuery("invalid property '%s' for pagination", v.Column)
+		}
+		switch field.Type.(type) {
+		case queries.TypeDate, queries.TypeNumeric:
+		default:
+			// only date and numeric columns carry a pagination id
+			return nil, newErrNotPaginatedField(v.Column)
+		}
+		if v.PageSize > math.MaxInt32 {
+			return nil, NewErrInvalidQuery("invalid page size %d", v.PageSize)
 		}
 		paginator = newColumnPaginator[ResourceType, OptionsType](v, fieldName, field.Type)
 		resourceQuery = v.Options
